@@ -11,11 +11,13 @@ namespace Verif.C18
     stay plain. -/
 theorem prepend_kind (fresh : Nat) (p : Bytes) (e : Err) :
     (prependError fresh p e).kind = specPrependKind e.kind := by
+  rw [prependError_eq]   -- the case table under the regenerated order of type tests (Facts.prependErrorOrder)
   cases e <;> rfl
 
 /-- Prepending keeps the type id (and plain errors still have none). -/
 theorem prepend_typeId (fresh : Nat) (p : Bytes) (e : Err) :
     (prependError fresh p e).typeId = e.typeId := by
+  rw [prependError_eq]
   cases e <;> rfl
 
 /-- The new text is prefix ++ original text — except at the one point the proof forces out:
